@@ -8,6 +8,7 @@ import (
 	"massnet.org/mass-wallet/masswallet"
 )
 
+//go:norace
 func init() {
 	Runners["C07"] = runC07
 	Runners["C08"] = runC08
@@ -16,6 +17,8 @@ func init() {
 // scanReach returns how far (exclusive index bound) the documented restore
 // scan gets on the current best chain: it continues until gap-limit
 // consecutive unused addresses past the last used one (or past the hint).
+//
+//go:norace
 func scanReach(w *World, hd *HDWallet, hint, gap uint32) uint32 {
 	reach, next := uint32(0), uint32(0)
 	if hint == 0 {
@@ -35,6 +38,8 @@ func scanReach(w *World, hd *HDWallet, hint, gap uint32) uint32 {
 }
 
 // quiesceAll drains every instance fairly.
+//
+//go:norace
 func quiesceAll(w *World, class string, budget int) bool {
 	n, ok := w.S.Quiesce(budget)
 	if !ok {
@@ -55,6 +60,8 @@ func quiesceAll(w *World, class string, budget int) bool {
 // runC07: instance X watches the chain live; the same mnemonic (or exported
 // keystore) is restored into a fresh instance Y at a seeded moment while the
 // chain keeps moving; rescan batches interleave with tips and reorgs.
+//
+//go:norace
 func runC07(w *World, p map[string]int) {
 	t := w.Plan
 	k := drawKnobs(w)
@@ -286,6 +293,8 @@ func runC07(w *World, p map[string]int) {
 }
 
 // residue scans the raw wallet database for records of a removed wallet.
+//
+//go:norace
 func residue(w *World, inst *Instance, ws *WalletState, addrs []string, hashes [][32]byte) string {
 	es, err := DumpDB(inst.DB)
 	if err != nil {
@@ -316,6 +325,8 @@ func residue(w *World, inst *Instance, ws *WalletState, addrs []string, hashes [
 // runC08: multi-wallet histories; one wallet is removed at a seeded moment
 // (wrong passphrase first, and while importing where possible); afterwards no
 // residue, survivors unchanged, re-import works.
+//
+//go:norace
 func runC08(w *World, p map[string]int) {
 	t := w.Plan
 	k := drawKnobs(w)
